@@ -69,6 +69,15 @@ def fam_lig_components_per_glyph(q):
             "table(sub) cA > cB; endtable;\n" % comps), ["NOENGINE"], lambda s, g: s["maxCompPerLig"], q
 
 
+def fam_fsm_states(q):
+    """q rules of 52 (q <= 1500) or 60 items: about q*length/2 states in the pass's state machine, whose count and state
+    numbers are 16-bit fields of the pass block (1500 x 52: 63866 states; 1600 x 60: 80737)"""
+    import random as _r
+    import gen as _gen
+    prog = _gen.gen_big_fsm_program(_r.Random(12), q, 52 if q <= 1500 else 60)
+    return prog.gdl(), [], None, (None if q <= 1500 else "MUST-REJECT")
+
+
 def fam_features(q):
     feats = "".join('f%d { id = %d; name.1033 = string("F%d"); settings { a%d { value = 0; name.1033 = string("x"); } } default = a%d; }\n' % (i, 100 + i, i, i, i) for i in range(q))
     return HDR + GT + "table(feature)\n" + feats + "endtable;\ntable(sub) cA > cB; endtable;\n", [], None, q
@@ -157,6 +166,7 @@ FAMILIES = [
     ("script_tags", fam_script_tags, [254, 255, 256, 257, 400], 120),
     ("justify_attr_ids_after_components", fam_justify_attr_ids, [40, 48, 49, 50, 52, 70], 120),
     ("lig_components_per_glyph", fam_lig_components_per_glyph, [254, 255, 256, 300], 120),
+    ("fsm_states", fam_fsm_states, [400, 1500, 1600], 120),
     ("features", fam_features, [62, 63, 64, 65, 200], 120),
     ("user_attr_index", fam_userattr, [15, 16, 17, 64], 120),
     ("glyph_attrs", fam_gattrs, [250, 252, 253, 256, 300], 120),
